@@ -1,5 +1,5 @@
 CONSTANTS
-  Ns = {8, 16}
+  Ns = {8, 16, 32}
   MaxS = 4
   MaxSel = 4
   VMax = 3
